@@ -14,7 +14,7 @@ GenNext ==
   \* right after a tick (the executor delivers the latter from inside schedSlotFunc)
   \/ /\ pc \in HeadPcs /\ ReadyGor = {} /\ Cardinality({k \in DOMAIN hist : hist[k].ev = "Head"}) < MaxHeads
      /\ \E n \in {CurSlot(now) - 1, CurSlot(now), CurSlot(now) + 1} :
-           /\ n >= 0 /\ HeadEvent(n, TRUE)
+           /\ n >= 0 /\ ~(hist[Len(hist)].ev = "Head" /\ hist[Len(hist)].slot = n) /\ HeadEvent(n, TRUE)
            /\ hist' = Append(hist, [ev |-> "Head", slot |-> n, atsched |-> (pc = "sched"), sslot |-> slot])
      /\ UNCHANGED nfail
   \/ /\ ReadyGor = {}
